@@ -43,7 +43,6 @@ package htlcswitch
 //@   props C09
 //@   bounds-safe
 //@   requires l.cfg.AuxTrafficShaper.IsNone()
-//@   requires heightNow + l.cfg.OutgoingCltvRejectDelta < 1<<32 && heightNow + l.cfg.MaxOutgoingCltvExpiry < 1<<32
 //@   ensures  result == nil ==> amtOK(amt, policy.MinHTLCOut, policy.MaxHTLC) &&
 //@            expiryOK(timeout, heightNow, old(l.cfg.OutgoingCltvRejectDelta), old(l.cfg.MaxOutgoingCltvExpiry))
 //@   site call lnwire.NewExpiryTooSoon:           assert timeout <= heightNow + l.cfg.OutgoingCltvRejectDelta
@@ -61,7 +60,6 @@ package htlcswitch
 //@   requires incomingHtlcAmt <= 1<<40 && amtToForward <= 1<<40
 //@   requires l.cfg.FwrdingPolicy.FeeRate <= 1000000 && l.cfg.FwrdingPolicy.BaseFee < 1<<32
 //@   requires -1000000 <= inboundFee.Rate && inboundFee.Rate <= 1000000
-//@   requires heightNow + l.cfg.OutgoingCltvRejectDelta < 1<<32 && heightNow + l.cfg.MaxOutgoingCltvExpiry < 1<<32
 //@   ensures  result == nil ==>
 //@            feeOK(incomingHtlcAmt, amtToForward, p.BaseFee, p.FeeRate, inboundFee.Base, inboundFee.Rate) &&
 //@            amtOK(amtToForward, p.MinHTLCOut, p.MaxHTLC) &&
@@ -78,7 +76,6 @@ package htlcswitch
 //@   bounds-safe
 //@   let p = old(l.cfg.FwrdingPolicy)
 //@   requires l.cfg.AuxTrafficShaper.IsNone()
-//@   requires heightNow + l.cfg.OutgoingCltvRejectDelta < 1<<32 && heightNow + l.cfg.MaxOutgoingCltvExpiry < 1<<32
 //@   ensures  result == nil ==> amtOK(amt, p.MinHTLCOut, p.MaxHTLC) &&
 //@            expiryOK(timeout, heightNow, old(l.cfg.OutgoingCltvRejectDelta), old(l.cfg.MaxOutgoingCltvExpiry))
 //@   nowrap
